@@ -278,18 +278,22 @@ example : ∀ r, decodeRequest 12 createTree = .ok r → ∀ it ∈ r.items, Len
       { version := 12, timeStamp := none, async := none, batchOption := none, maxResponseSize := none,
         items := [⟨.create 2 (some ⟨0, [⟨"Cryptographic Algorithm", none, .enum 3⟩,
                                         ⟨"Cryptographic Length", none, .int 128⟩]⟩), none, .internal⟩] } := by
-    decide +kernel
+    rfl
   rw [hr] at h
   cases h
   simp only [List.mem_singleton] at hit
   subst hit
   intro a ha
-  simp only [List.mem_cons, List.mem_singleton, List.not_mem_nil, or_false] at ha
+  simp only [List.mem_cons, List.not_mem_nil, or_false] at ha
   rcases ha with rfl | rfl <;> intro hn <;> simp [AVal.nonneg] at *
+
+def errOf : D Request → Option DErr
+  | .error e => some e
+  | .ok _ => none
 
 /-- the decoder is not trivially rejecting, nor trivially accepting: an attribute whose factory method raises
 NotImplementedError makes the request undecodable … -/
-example : decodeRequest 12 (.struct T.requestMessage [
+example : errOf (decodeRequest 12 (.struct T.requestMessage [
     .struct T.requestHeader [
       .struct T.protocolVersion [.prim T.protocolVersionMajor (.integer 1), .prim T.protocolVersionMinor (.integer 2)],
       .prim T.batchCount (.integer 1)],
@@ -297,11 +301,11 @@ example : decodeRequest 12 (.struct T.requestMessage [
       .prim T.operation_ (.enumeration 8),
       .struct T.requestPayload [
         .struct T.attribute_ [.prim T.attributeName (.textString (ascii "Link")),
-                              .prim T.attributeValue (.integer 1)]]]]) = .error (.unsupportedAttribute "Link") := by
+                              .prim T.attributeValue (.integer 1)]]]])) = some (.unsupportedAttribute "Link") := by
   decide +kernel
 
 /-- … a value of the wrong type under an attribute name is refused (this is where `ValOk.kind` comes from) … -/
-example : decodeRequest 12 (.struct T.requestMessage [
+example : errOf (decodeRequest 12 (.struct T.requestMessage [
     .struct T.requestHeader [
       .struct T.protocolVersion [.prim T.protocolVersionMajor (.integer 1), .prim T.protocolVersionMinor (.integer 2)],
       .prim T.batchCount (.integer 1)],
@@ -309,8 +313,8 @@ example : decodeRequest 12 (.struct T.requestMessage [
       .prim T.operation_ (.enumeration 8),
       .struct T.requestPayload [
         .struct T.attribute_ [.prim T.attributeName (.textString (ascii "Cryptographic Length")),
-                              .prim T.attributeValue (.textString (ascii "128"))]]]])
-      = .error (.malformed "Cryptographic Length") := by
+                              .prim T.attributeValue (.textString (ascii "128"))]]]]))
+      = some (.malformed "Cryptographic Length") := by
   decide +kernel
 
 /-- … and an item under a protocol version that is no member of KMIPVersion is refused, while the same header with
